@@ -152,6 +152,10 @@ func (v *collator_[V]) compareArrays(first ref.Value, second ref.Value) bool {
 }
 
 func (v *collator_[V]) compareInterfaces(first ref.Value, second ref.Value) bool {
+	// Check for maximum traversal depth.
+	if v.depth_ == v.maximum_ {
+		panic(fmt.Sprintf("The maximum traversal depth was exceeded: %v", v.depth_))
+	}
 	var typeRef = first.Type() // We know the structures are the same type.
 	var count = typeRef.NumMethod()
 	for index := 0; index < count; index++ {
@@ -160,10 +164,13 @@ func (v *collator_[V]) compareInterfaces(first ref.Value, second ref.Value) bool
 		if sts.HasPrefix(name, "Get") && arguments == 0 {
 			var firstValue = first.Method(index).Call([]ref.Value{})[0]
 			var secondValue = second.Method(index).Call([]ref.Value{})[0]
+			v.depth_++
 			if !v.compareValues(firstValue, secondValue) {
 				// Found a difference.
+				v.depth_--
 				return false
 			}
+			v.depth_--
 		}
 	}
 	// All getter values are equal.
@@ -437,6 +444,10 @@ func (v *collator_[V]) rankFloats(first, second float64) Rank {
 }
 
 func (v *collator_[V]) rankInterfaces(first ref.Value, second ref.Value) Rank {
+	// Check for maximum traversal depth.
+	if v.depth_ == v.maximum_ {
+		panic(fmt.Sprintf("The maximum traversal depth was exceeded: %v", v.depth_))
+	}
 	var typeRef = first.Type() // We know the structures are the same type.
 	var count = first.NumMethod()
 	for index := 0; index < count; index++ {
@@ -444,7 +455,9 @@ func (v *collator_[V]) rankInterfaces(first ref.Value, second ref.Value) Rank {
 		if sts.HasPrefix(method.Name, "Get") {
 			var firstValue = first.Method(index).Call([]ref.Value{})[0]
 			var secondValue = second.Method(index).Call([]ref.Value{})[0]
+			v.depth_++
 			var rank = v.rankValues(firstValue, secondValue)
+			v.depth_--
 			if rank != EqualRank {
 				// Found a difference.
 				return rank
@@ -610,12 +623,18 @@ func (v *collator_[V]) rankStrings(first, second string) Rank {
 }
 
 func (v *collator_[V]) rankStructures(first ref.Value, second ref.Value) Rank {
+	// Check for maximum traversal depth.
+	if v.depth_ == v.maximum_ {
+		panic(fmt.Sprintf("The maximum traversal depth was exceeded: %v", v.depth_))
+	}
 	var count = first.NumField() // The structures are the same type.
 	for index := 0; index < count; index++ {
 		var firstField = first.Field(index)
 		var secondField = second.Field(index)
 		if firstField.CanInterface() {
+			v.depth_++
 			var rank = v.rankValues(firstField, secondField)
+			v.depth_--
 			if rank != EqualRank {
 				// Found a difference.
 				return rank
